@@ -2,6 +2,7 @@ import TruthModel.Model.Files
 import TruthModel.Model.FilesEcl
 import TruthModel.Driver.C03
 import TruthModel.Driver.FilesAnm
+import TruthModel.Driver.FilesEcl10
 /-
 Driver glue for the container-level models (C03 / C16): whole files.
 
@@ -157,6 +158,10 @@ def handle (case : Sexp) : Sexp :=
     | _ => .atom "bad-case"
   | some "ranm" => Driver.FilesAnm.handle case
   | some "wanm" => Driver.FilesAnm.handle case
+  | some "recl10" => Driver.FilesEcl10.handle case
+  | some "wecl10" => Driver.FilesEcl10.handle case
+  | some "rinstrs10" => Driver.FilesEcl10.handle case
+  | some "winstrs10" => Driver.FilesEcl10.handle case
   | _ => Driver.C03.handle case
 
 end TruthModel.Driver.Files
